@@ -100,6 +100,8 @@ _line_b = st.one_of(
     st.just(''),
     st.text(alphabet='ab \xe9\u20ac\U0001f600x', min_size=0, max_size=6),
     st.text(alphabet='abcdefgh', min_size=1, max_size=12),
+    # characters that str.splitlines treats as line breaks but that do not end a line of a *file* (only \n, \r, \r\n do)
+    st.text(alphabet='ab\x0b\x0c\x1c\x1d\x1e\x85\u2028\u2029', min_size=1, max_size=5),
 )
 
 
@@ -169,7 +171,8 @@ def run_b(case):
     n = len(data)
     kind = case['kind']
     as_text = kind in ('textfile', 'textfile_w+')
-    base = text.splitlines() if as_text else data.splitlines()
+    # lines of a file end at \n, \r\n (and \r): the byte-level split, decoded for text handles
+    base = [l.decode('utf-8') for l in data.splitlines()] if as_text else data.splitlines()
     # the two accepted readings of "lines" for a file that ends with a newline
     empty = '' if as_text else b''
     exp_a = list(reversed(base))
